@@ -6,9 +6,9 @@ from .common import lib_loops, cstr
 META = {
     "level": "other",
     "explanation": "'Never yields H' cannot be a theorem about DES or MD4; what an edit can break is that every significant input byte reaches the kernel. The property is decided MODULO THE IDEAL-KERNEL AXIOM: the DES key schedule and block function are uninterpreted functions assumed injective (the axiom is instantiated on every pair of applications occurring in the two runs, which is complete for a quantifier-free goal). Two runs of the real crypt_<m>_rn: (a) same setting, phrases that differ inside the documented significant window => different hashes, and phrases equal on the window => equal hashes (so the harness and crypt(5) agree on the window: 8 bytes / 7 bits descrypt, 7 bits everywhere for bsdicrypt and bigcrypt); (b) same phrase, settings that differ in a salt or cost character => different hash parts.",
-    "functions": ["crypt_descrypt_rn", "crypt_bigcrypt_rn", "crypt_bsdicrypt_rn", "ascii_to_bin", "des_gen_hash"],
+    "functions": ["crypt_descrypt_rn", "crypt_bigcrypt_rn", "crypt_bsdicrypt_rn", "ascii_to_bin", "des_gen_hash", "crypt_nt_rn (phrase 4)"],
     "bounds": {"phrase": "<= 10 (descrypt), 12 (bigcrypt: two segments), 8 (bsdicrypt: one block - its Merkle-Damgard folding of longer phrases admits constructed collisions even for an ideal cipher, so longer phrases are outside what can be claimed)", "setting": "valid salt/count characters"},
-    "outside": ["all non-DES methods (the UF-injective digest variant for md5crypt/sha*crypt/sunmd5/sha1crypt/NT exhausted memory in the two-run form; NT's UCS-2 expansion is covered by C01's round trip only)", "collisions of the real primitives (that is the axiom)", "phrases beyond the bound"],
+    "outside": ["md5crypt (the two-run ideal-hash query takes 15 minutes and its log of applications overflows: no sound verdict), sha*crypt, sunmd5, sha1crypt, bcrypt, yescrypt family; NT only at phrase length 4", "collisions of the real primitives (that is the axiom)", "phrases beyond the bound"],
     "assumptions": ["ideal cipher: injective uninterpreted key schedule (on the 56 key bits) and block function"],
     "trusted": [],
     "claim": "Within the bounds and modulo the stated axiom, every significant phrase byte, every salt character and every cost character of the DES-based methods influences the hash, and only the documented insignificant bits do not. Known finding F7 (bsdicrypt count 0 is applied as 1) is isolated by its own query.",
@@ -36,6 +36,21 @@ def queries(tier, seed, build):
         nofa("c03-bsdicrypt-setting", "bsdicrypt", "NOFA_SETTING", 6, 8, 8, 10, 8, 9, 21, extra=["KF_F7_EXCLUDE"]),
         nofa("c03-bigcrypt-phrase", "bigcrypt", "NOFA_PHRASE", 12, 14, 14, 12, 2, 2, 26),
     ]
+    # digest-based methods, modulo the ideal-hash axiom, lengths fixed per query
+    for n, pl, sl, hf, om in (("nt", 4, 0, 4, 40),):
+        m = BY_NAME[n]
+        for mode in (("NOFA_PHRASE",) if n == "nt" else ("NOFA_PHRASE", "NOFA_SETTING")):
+            defs = ["METHOD_FN=" + m.fn, "PREFIX_STR=" + cstr(m.prefix), "MAX_P=%d" % pl, "MAX_S=%d" % max(sl, 1), "MIN_S=0", mode,
+                    "SIG_BYTES=%d" % pl, "SIG_MASK=0xff", "FIELD_LEN=%d" % sl, "HASH_FROM=%d" % hf, "OUT_MAX=%d" % om,
+                    "UF_LOG", "UF_LOG_MAX=40", "NOFA_DIGEST", "FIX_PLEN=%d" % pl, "FIX_SLEN=%d" % sl, "SCR_SIZE=%d" % (1280 if n == "nt" else 384)] + list(m.mdefs)
+            loops = [("^harness$", None, 60, False), ("^absorb$", None, 10, False), ("^emit$", None, 10, False)]
+            for freg, sreg in m.caps:
+                loops.append((freg, sreg, 2, True))
+            q = Query("c03-%s-%s" % (n, mode[5:].lower()), "crypt_nofa.c", units=["util-xstrcpy.c", "util-base64.c"] + m.units,
+                      models=["libc.c", "digest_uf.c"], defs=defs, unwind=20, loops=loops + m.extra_loops + lib_loops(om + 2), timeout=1500)
+            q.loops_optional = True
+            q.str_bound = om + 2
+            qs.append(q)
     kf = nofa("c03-bsdicrypt-setting-F7", "bsdicrypt", "NOFA_SETTING", 2, 8, 8, 10, 8, 9, 21)
     kf.known_finding = "F7"
     qs.append(kf)
